@@ -2,6 +2,7 @@
 package natives
 
 import (
+	"fmt"
 	"math"
 
 	"github.com/dop251/goja"
@@ -129,6 +130,55 @@ func Install(vm *goja.Runtime) {
 		r.Set("proxy", vm.ToValue(px))
 		r.Set("revoke", func() { px.Revoke() })
 		return r
+	})
+	// ArrayBuffer over a Go-supplied slice that sits inside a slab of guard bytes (C17)
+	type slab struct {
+		mem []byte
+		n   int
+	}
+	slabs := map[*goja.Object]*slab{}
+	vm.Set("__mkBuffer", func(call goja.FunctionCall) goja.Value {
+		n := int(call.Argument(0).ToInteger())
+		sl := &slab{mem: make([]byte, n+64), n: n}
+		for i := range sl.mem {
+			sl.mem[i] = 0xA5
+		}
+		for i := 0; i < n; i++ {
+			sl.mem[32+i] = byte(10*(i+1) + 1)
+		}
+		o := vm.ToValue(vm.NewArrayBuffer(sl.mem[32 : 32+n : 32+n])).(*goja.Object)
+		slabs[o] = sl
+		return o
+	})
+	vm.Set("__bufState", func(call goja.FunctionCall) goja.Value {
+		o := call.Argument(0).(*goja.Object)
+		sl := slabs[o]
+		ab := o.Export().(goja.ArrayBuffer)
+		guard := "ok"
+		for i := 0; i < 32; i++ {
+			if sl.mem[i] != 0xA5 {
+				guard = fmt.Sprintf("byte %d before the buffer", 32-i)
+			}
+			if sl.mem[32+sl.n+i] != 0xA5 {
+				guard = fmt.Sprintf("byte %d after the buffer", i)
+			}
+		}
+		bytes := []interface{}{}
+		if !ab.Detached() {
+			b := ab.Bytes()
+			// all views alias the Go slice
+			if len(b) != sl.n || (sl.n > 0 && &b[0] != &sl.mem[32]) {
+				guard = "Bytes() is not the Go-supplied slice"
+			}
+			for _, x := range b {
+				bytes = append(bytes, int(x))
+			}
+		}
+		return vm.ToValue(map[string]interface{}{"bytes": bytes, "guard": guard, "detached": ab.Detached()})
+	})
+	vm.Set("__detach", func(call goja.FunctionCall) goja.Value {
+		call.Argument(0).Export().(goja.ArrayBuffer).Detach()
+		return goja.Undefined()
 	})
 	vm.Set("__regs", func(call goja.FunctionCall) goja.Value {
 		return vm.ToValue(goja.VerifRegs(vm))
